@@ -92,7 +92,7 @@ def _dump_system(system: Union[
                  **kwargs) -> Iterable[str]:
     if isinstance(system, votelib.VotingSystem):
         if system.name is not None:
-            yield f'title={system.name}'
+            yield f'title={_header_text(system.name)}'
         yield from _dump_system(system.evaluator, **kwargs)
     elif isinstance(system, votelib.evaluate.FixedSeatCount):
         yield f'seats={system.n_seats}'
@@ -158,7 +158,10 @@ def _dump_ballots(votes: Dict[Tuple[Candidate, ...], Number],
     # unordered format supported only
     if candidates is None:
         candidates = votelib.util.all_ranked_candidates(votes)
-    cand_names = {cand: _candidate_name(cand) for cand in candidates}
+    cand_names = {
+        cand: _header_text(_candidate_name(cand), allow_empty=False)
+        for cand in candidates
+    }
     cand_nicks = _candidate_nicks(cand_names)
     for cand in candidates:
         prefix = 'candidate'
@@ -187,6 +190,14 @@ def _ranking_to_str(ranking: Tuple[Candidate, ...],
             raise NotSupportedInSTV(f'equal rankings: {ranking}')
         else:
             raise err
+
+
+def _header_text(text: str, allow_empty: bool = True) -> str:
+    # The reader strips header values and cuts them at a hash sign.
+    if (text != text.strip() or any(char in text for char in '#\n\r')
+            or not (text or allow_empty)):
+        raise NotSupportedInSTV(f'title or candidate name {text!r}')
+    return text
 
 
 def _candidate_name(candidate: Candidate) -> str:
